@@ -44,12 +44,25 @@ func runC16MixedProgram(w *ATWorld, db *sql.DB, proxied bool, pinned bool, table
 			if err != nil {
 				panic(err)
 			}
-			defer conn.Close()
+			defer func() {
+				// a driver that panics inside Commit leaves database/sql's transaction holding the connection for
+				// good: closing it would wait for ever
+				closed := make(chan struct{})
+				go func() { conn.Close(); close(closed) }()
+				select {
+				case <-closed:
+				case <-time.After(2 * time.Second):
+				}
+			}()
 			base = conn
 		}
 		var tx *sql.Tx
 		stmts := map[int]*sql.Stmt{}
 		defer func() {
+			// (also on the way out of a panic: a transaction left open keeps its connection locked)
+			if tx != nil {
+				safeCall(func() { tx.Rollback() })
+			}
 			for _, ps := range stmts {
 				ps.Close()
 			}
@@ -62,6 +75,9 @@ func runC16MixedProgram(w *ATWorld, db *sql.DB, proxied bool, pinned bool, table
 			return fmt.Sprintf("ok:%d", n)
 		}
 		runPhase := func(ctx context.Context, phase int) {
+			// nothing here may wait for ever (a connection pool of one whose connection a crashed case kept)
+			ctx, cancel := context.WithTimeout(ctx, 20*time.Second)
+			defer cancel()
 			w.Eng.ResetJournal()
 			c0 := len(w.coord.Snapshot())
 			for _, s := range steps {
@@ -71,10 +87,16 @@ func runC16MixedProgram(w *ATWorld, db *sql.DB, proxied bool, pinned bool, table
 				switch s.kind {
 				case "exec":
 					q := "UPDATE " + table + " SET n = n + 1 WHERE id = ?"
+					var arg interface{} = s.id
+					if s.id >= 100 {
+						// an argument only the target driver's own argument check lets through: a uint64 with its high
+						// bit set (no row has such a key)
+						arg = uint64(1)<<63 + uint64(s.id)
+					}
 					if tx != nil {
-						res.outs = append(res.outs, show(tx.ExecContext(ctx, q, s.id)))
+						res.outs = append(res.outs, show(tx.ExecContext(ctx, q, arg)))
 					} else {
-						res.outs = append(res.outs, show(base.ExecContext(ctx, q, s.id)))
+						res.outs = append(res.outs, show(base.ExecContext(ctx, q, arg)))
 					}
 				case "query":
 					q := "SELECT id, n FROM " + table + " WHERE id = ?"
@@ -240,6 +262,8 @@ func runC16Mixed(c *Ctx) {
 					}
 				}
 				switch {
+				case x < 3 && r.Chance(15):
+					steps = append(steps, c16mStep{phase, "exec", 100 + r.Intn(3)})
 				case x < 3:
 					steps = append(steps, c16mStep{phase, "exec", 1 + r.Intn(3)})
 				case x < 4:
@@ -334,5 +358,10 @@ func runC16Mixed(c *Ctx) {
 		c.Out.Count("mixed." + mode + fmt.Sprintf(".pinned=%v", pinned))
 		w.Eng.DropTable(tA)
 		w.Eng.DropTable(tB)
+		if prox.crash != "" || bare.crash != "" {
+			// a crash inside database/sql's Commit keeps the connection for good: the cases after it would only
+			// report that
+			break
+		}
 	}
 }
